@@ -27,6 +27,7 @@ EXPLANATION = (
     "decided: that msgpack reproduces each value bit-for-bit, integer magnitude, float bits, surrogate escapes, offsets."
     " Also decided (rules added after the fifth blind round): (R1.9) every element typedlist._pack writes is X._pack() with X of the element type (the list mutators are not overridden, raw values can sit in the list), records inside record[] excepted."
     " Rules added after the sixth blind round: (R1.10) path._unpack / command._unpack construct the class the stored flavour tag names on every return; (R1.11 = R3.5 of C03) readers register every descriptor frame unconditionally."
+    " Rules added after the seventh blind round: (R1.12 = R5.12 of C05) the attributes a validating setter writes are kept in step, so the packed form is that of the value last accepted."
 )
 RULE_SUMMARY = "instances: sub-type branches, (class, _pack/_unpack) pairs, template loops, struct sites; non-trivial = arity/shape/discriminator set computed"
 
